@@ -186,7 +186,7 @@ func (f Field) AddTo(enc ObjectEncoder) {
 }
 
 // Equals returns whether two fields are equal. For non-primitive types such as
-// errors, marshalers, or reflect types, it uses reflect.DeepEqual.
+// errors, marshalers, stringers, or reflect types, it uses reflect.DeepEqual.
 func (f Field) Equals(other Field) bool {
 	if f.Type != other.Type {
 		return false
@@ -198,7 +198,7 @@ func (f Field) Equals(other Field) bool {
 	switch f.Type {
 	case BinaryType, ByteStringType:
 		return bytes.Equal(f.Interface.([]byte), other.Interface.([]byte))
-	case ArrayMarshalerType, ObjectMarshalerType, ErrorType, ReflectType:
+	case ArrayMarshalerType, ObjectMarshalerType, InlineMarshalerType, StringerType, ErrorType, ReflectType:
 		return reflect.DeepEqual(f.Interface, other.Interface)
 	default:
 		return f == other
